@@ -8,6 +8,10 @@ Cases (first component is the tag, see coq/Run/C17_run.v):
   (2, parts)         DataFrame whose partitions are these lists of (x, y) rows -> covariance helper fields,
                      df.cov, df.corr
   (3, parts, prog)   one CovarianceCounter per partition merged in the order given by `prog` (merge / self-merge)
+  (4, rdds, sprog)   a session on a few RDD objects that are REUSED: sprog is a list of (opcode, arg):
+                     (0, i) push rdds[i].stats();  (1, 0) r = pop, l = pop, push l.mergeStats(r);  (2, 0) s = pop, push
+                     s.mergeStats(s);  (3, v) s = pop, push s.merge(v);  (4, j) observe RDD j again (stats() fields and
+                     the RDD-level accessors).  Result: (observations, summaries left on the stack).
 """
 import glob
 import itertools
@@ -38,7 +42,11 @@ RULE = ('cases: (a) every list over a small integer alphabet up to a length boun
         'fractions) x all / sampled compositions; (d) merge orders: left comb, right comb, balanced and random binary '
         'trees over a random permutation of the partitions with random self-merges, on StatCounter and on '
         'CovarianceCounter objects; (e) DataFrames of (x, y) rows with the same partition shapes through df.cov / '
-        'df.corr; a few non-finite / overflowing inputs for the bit-exactness of the float model only. '
+        'df.corr; (f) sessions on a few RDD objects that are REUSED: the summaries returned by rdd.stats() are merged as '
+        'receiver / argument / with themselves or get values folded in, and the same RDDs are asked for all their '
+        'summaries again afterwards (every later summary is compared with the two-pass value of that RDD); RDDs with '
+        'leading empty partitions and sizes 1|>=11, >=11|1; a few non-finite / overflowing inputs for the bit-exactness '
+        'of the float model only. '
         'non-trivial = at least two data values and at least one merge of two non-empty partial summaries; '
         'distinct by canonical JSON of the case')
 ASSUMPTIONS = [
@@ -58,7 +66,7 @@ TRUSTED = ['translator kernels of Gen/StatCounter.v and Gen/Covariance.v',
 SHARD = 400
 
 TOL = Fraction(1, 10 ** 9)
-NAMES = {0: 'rdd', 1: 'tree', 2: 'df', 3: 'covtree'}
+NAMES = {0: 'rdd', 1: 'tree', 2: 'df', 3: 'covtree', 4: 'session'}
 ACCESSORS = ['count', 'mean', 'sum', 'min', 'max', 'variance', 'stdev', 'sampleVariance', 'sampleStdev']
 
 _ctx = None
@@ -98,6 +106,20 @@ def _rdd_of(parts):
 
 def _sc_fields(s):
     return [_get(lambda: s.n, int), _get(lambda: s.mu), _get(lambda: s.m2), _get(lambda: s.maxValue), _get(lambda: s.minValue)]
+
+
+def _counter_view(s):
+    return tuple(_sc_fields(s) + [
+        _get(s.count, int), _get(s.mean), _get(s.sum), _get(s.min), _get(s.max),
+        _get(s.variance), _get(s.stdev), _get(s.sampleVariance), _get(s.sampleStdev)])
+
+
+def _rdd_view(rdd):
+    """stats() fields, then the accessors as the RDD reports them (count and sum of the summary)."""
+    s = rdd.stats()
+    return tuple(_sc_fields(s) + [
+        _get(s.count, int), _get(rdd.mean), _get(s.sum), _get(rdd.min), _get(rdd.max),
+        _get(rdd.variance), _get(rdd.stdev), _get(rdd.sampleVariance), _get(rdd.sampleStdev)])
 
 
 def _cc_view(c):
@@ -155,16 +177,31 @@ def impl(case):
 def _impl(case):
     tag = case[0]
     if tag == 0:
-        rdd = _rdd_of(case[1])
-        s = rdd.stats()
-        return tuple(_sc_fields(s) + [
-            _get(s.count, int), _get(rdd.mean), _get(s.sum), _get(rdd.min), _get(rdd.max),
-            _get(rdd.variance), _get(rdd.stdev), _get(rdd.sampleVariance), _get(rdd.sampleStdev)])
+        return _rdd_view(_rdd_of(case[1]))
     if tag == 1:
         s = _eval_prog(case[1], case[2], lambda p: StatCounter(list(p)), lambda a, b: a.mergeStats(b))
-        return tuple(_sc_fields(s) + [
-            _get(s.count, int), _get(s.mean), _get(s.sum), _get(s.min), _get(s.max),
-            _get(s.variance), _get(s.stdev), _get(s.sampleVariance), _get(s.sampleStdev)])
+        return _counter_view(s)
+    if tag == 4:
+        rdds = [_rdd_of(parts) for parts in case[1]]   # built once, reused by every step of the session
+        stack, obs = [], []
+        for op, arg in case[2]:
+            if op == 0:
+                stack.append(rdds[arg].stats())
+            elif op == 1:
+                r = stack.pop()
+                l = stack.pop()
+                stack.append(l.mergeStats(r))
+            elif op == 2:
+                c = stack.pop()
+                stack.append(c.mergeStats(c))
+            elif op == 3:
+                c = stack.pop()
+                stack.append(c.merge(arg))
+            elif op == 4:
+                obs.append(_rdd_view(rdds[arg]))
+            else:
+                raise ValueError('bad op')
+        return (obs, [_counter_view(c) for c in stack])
     if tag == 2:
         df = _df_of(case[1])
         h = df._jdf._get_covariance_helper('pearson', 'a', 'b')  # pylint: disable=protected-access
@@ -192,6 +229,28 @@ def _data_of(case):
             s = st.pop()
             st.append(s + s)
     return st[0]
+
+
+def _session_data(case):
+    """(data of every observation, data of every summary left on the stack) of a session."""
+    rdds = [[v for p in parts for v in p] for parts in case[1]]
+    stack, obs = [], []
+    for op, arg in case[2]:
+        if op == 0:
+            stack.append(list(rdds[arg]))
+        elif op == 1:
+            r = stack.pop()
+            l = stack.pop()
+            stack.append(l + r)
+        elif op == 2:
+            c = stack.pop()
+            stack.append(c + c)
+        elif op == 3:
+            c = stack.pop()
+            stack.append(c + [arg])
+        elif op == 4:
+            obs.append((arg, list(rdds[arg])))
+    return obs, stack
 
 
 def _finite(xs):
@@ -319,8 +378,33 @@ def _check_cov(site, ps, samp, pop, corr):
 _SKIP = object()
 
 
+def _oracle_session(case, result):
+    if isinstance(result, Err):
+        return ('session:raises', f'raised {result.name}')
+    try:
+        obs_data, stack_data = _session_data(case)
+    except (IndexError, TypeError):
+        return None
+    obs, stack = result
+    everything = [v for _, d in obs_data for v in d] + [v for d in stack_data for v in d]
+    if not _in_domain(everything, 1e-100, 1e100):
+        return None
+    # every later summary of the same RDD equals the two-pass value of ITS data
+    for k, ((j, d), view) in enumerate(zip(obs_data, obs)):
+        o = _check_stats('RDD.stats:reused-rdd', dict(zip(ACCESSORS, view[5:])), d)
+        if o is not None:
+            return (o[0], f'observation #{k} of RDD {j} after earlier summaries were merged/updated: {o[1]}')
+    for k, (d, view) in enumerate(zip(stack_data, stack)):
+        o = _check_stats('StatCounter.mergeStats:of-rdd-summaries', dict(zip(ACCESSORS, view[5:])), d)
+        if o is not None:
+            return (o[0], f'summary #{k} left on the stack: {o[1]}')
+    return None
+
+
 def oracle(case, result):
     tag = case[0]
+    if tag == 4:
+        return _oracle_session(case, result)
     data = _data_of(case)
     if tag in (0, 1):
         if not _in_domain(data, 1e-100, 1e100):
@@ -399,11 +483,43 @@ def _branches(case):
     return out
 
 
+def _session_flags(case):
+    """R: an RDD is observed / pushed again after one of its summaries was the receiver of a merge or fold;
+    M merge, S self-merge, F fold."""
+    flags = set()
+    stack, dirty = [], set()
+    for op, arg in case[2]:
+        if op == 0:
+            if arg in dirty:
+                flags.add('R')
+            stack.append(arg)
+        elif op == 1:
+            stack.pop()
+            flags.add('M')
+            if stack and stack[-1] is not None:
+                dirty.add(stack[-1])
+        elif op == 2:
+            flags.add('S')
+            if stack and stack[-1] is not None:
+                dirty.add(stack[-1])
+        elif op == 3:
+            flags.add('F')
+            if stack and stack[-1] is not None:
+                dirty.add(stack[-1])
+        elif op == 4 and arg in dirty:
+            flags.add('R')
+    return flags
+
+
 def kind(case):
+    if case[0] == 4:
+        return 'session/' + ''.join(sorted(_session_flags(case)))
     return NAMES[case[0]] + '/' + ''.join(sorted(_branches(case)))
 
 
 def nontrivial(case, result):
+    if case[0] == 4:
+        return 'R' in _session_flags(case) and not isinstance(result, Err)
     b = _branches(case)
     return len(_data_of(case)) >= 2 and bool(b & {'A', 'B', 'C'}) and not isinstance(result, Err)
 
@@ -548,6 +664,67 @@ def rand_pairs(rng, n):
     return list(zip(xs, ys))
 
 
+def rand_session(rng):
+    """A few RDDs (unequal partition sizes, leading empty partitions) and a random valid session program on them that
+    reuses the RDD objects; ends by observing every RDD once more."""
+    rdds = []
+    for _ in range(rng.randint(1, 3)):
+        n = rng.choice([0, 1, 2, 3, 4, 6, 12, 25])
+        xs = rand_number_list(rng, n)
+        k = rng.randint(1, 5)
+        sizes = skewed_sizes(rng, n, k) if n >= 12 and rng.random() < 0.6 else random_sizes(rng, n, k)
+        parts = cut(xs, sizes)
+        if rng.random() < 0.3:
+            parts = [[]] * rng.randint(1, 2) + parts
+        rdds.append(parts)
+    prog, depth, selfs = [], 0, 0
+    for _ in range(rng.randint(3, 12)):
+        ops = ['observe']
+        if depth < 4:
+            ops += ['push', 'push', 'push']
+        if depth >= 2:
+            ops += ['merge', 'merge', 'merge']
+        if depth >= 1:
+            ops += ['fold']
+            if selfs < 2:
+                ops += ['self']
+        op = rng.choice(ops)
+        if op == 'push':
+            prog.append((0, rng.randrange(len(rdds))))
+            depth += 1
+        elif op == 'merge':
+            prog.append((1, 0))
+            depth -= 1
+        elif op == 'self':
+            prog.append((2, 0))
+            selfs += 1
+        elif op == 'fold':
+            prog.append((3, rng.choice([rng.randint(-9, 9), rng.randint(-9, 9), rand_float(rng)])))
+        else:
+            prog.append((4, rng.randrange(len(rdds))))
+    order = list(range(len(rdds)))
+    rng.shuffle(order)
+    prog += [(4, j) for j in order]
+    return (4, rdds, prog)
+
+
+FIXED_SESSIONS = [
+    # merge the summaries of three datasets in one order, ask the datasets again, merge in the opposite order
+    (4, [[[1, 2], [3, 4]], [[], [10.5], [20.25]], [[-7], [0, 7]]],
+     [(0, 0), (0, 1), (1, 0), (0, 2), (1, 0), (4, 0), (4, 1), (4, 2), (0, 2), (0, 1), (1, 0), (0, 0), (1, 0), (4, 0), (4, 2)]),
+    # fold one more observation into a returned summary, ask the dataset again
+    (4, [[[2.0], [4.0], [6.0]]], [(0, 0), (3, 100.0), (4, 0), (0, 0)]),
+    # self-merge of a stats() result, then the dataset again
+    (4, [[[1, 5], [], [9]]], [(0, 0), (2, 0), (4, 0), (0, 0), (1, 0), (4, 0)]),
+    # the summary is only ever the ARGUMENT of a merge
+    (4, [[[1, 2, 3]], [[4, 6]]], [(0, 0), (0, 1), (1, 0), (4, 1), (4, 0)]),
+    # an empty dataset as receiver
+    (4, [[[], []], [[3, 1, 4, 1, 5]]], [(0, 0), (0, 1), (1, 0), (4, 0), (4, 1)]),
+    # a big receiver and singletons (size-ratio branches), asked again in between
+    (4, [[list(range(1, 13))], [[], [100]]], [(0, 0), (0, 1), (1, 0), (4, 0), (0, 1), (0, 0), (1, 0), (4, 1), (4, 0)]),
+]
+
+
 SPECIAL = [float('inf'), float('-inf'), float('nan'), 1e308, -1e308, 1e200, 1e-320, 0.0, -0.0, 1.5]
 
 
@@ -565,6 +742,8 @@ def _corpus():
 def _listify(case):
     """corpus cases come back with tuples for rows; partitions / programs must be lists"""
     tag = case[0]
+    if tag == 4:
+        return (4, [[list(p) for p in parts] for parts in case[1]], [tuple(op) for op in case[2]])
     parts = [[tuple(r) if tag in (2, 3) else r for r in p] for p in case[1]]
     return (tag, parts) + tuple(list(x) for x in case[2:])
 
@@ -614,20 +793,20 @@ def generate(rng, tier):
                 cases.append((1, parts, prog))
 
     # --- (c) floats of mixed magnitude x compositions
-    for _ in range(4 if quick else 20):
+    for _ in range(2 if quick else 20):
         n = rng.randint(2, 5)
         xs = rand_number_list(rng, n)
         for k in range(1, 7):
             for sizes in compositions(n, k):   # all of them
                 cases.append((0, cut(xs, sizes)))
-    for _ in range(400 if quick else 4000):
+    for _ in range(250 if quick else 4000):
         n = rng.randint(0, 14)
         xs = rand_number_list(rng, n)
         k = rng.randint(1, 6)
         cases.append((0, cut(xs, random_sizes(rng, n, k))))
 
     # --- (d) merge orders on StatCounter objects
-    for _ in range(250 if quick else 2000):
+    for _ in range(150 if quick else 2000):
         n = rng.randint(0, 16)
         xs = rand_number_list(rng, n)
         k = rng.randint(1, 6)
@@ -649,7 +828,7 @@ def generate(rng, tier):
             for k in range(1, 5 if quick else 7):
                 for sizes in compositions(n, k):
                     cases.append((2, cut(ps, sizes)))
-    for _ in range(300 if quick else 2500):
+    for _ in range(200 if quick else 2500):
         n = rng.choice([0, 1, 2, 3, 4, 5, 6, 8, 12, 20, 40])
         ps = rand_pairs(rng, n)
         k = rng.randint(1, 6)
@@ -658,6 +837,25 @@ def generate(rng, tier):
         cases.append((2, parts))
         for prog in merge_orders(rng, k, 2, 0.2)[:2 if quick else 4]:
             cases.append((3, parts, prog))
+
+    # --- (f) sessions on REUSED RDD objects: summaries merged as receiver / argument / with themselves / updated, and
+    #         the same RDDs asked again afterwards
+    cases.extend(FIXED_SESSIONS)
+    for _ in range(200 if quick else 3000):
+        cases.append(rand_session(rng))
+    # RDDs whose first partitions are empty and whose sizes are very unequal (1 | >= 11 and >= 11 | 1)
+    for _ in range(60 if quick else 600):
+        n = rng.randint(12, 40)
+        xs = rand_number_list(rng, n)
+        lead = [[]] * rng.randint(0, 2)
+        if rng.random() < 0.5:
+            parts = lead + [xs[:1], xs[1:]]
+        else:
+            parts = lead + [xs[:-1], xs[-1:]]
+        if rng.random() < 0.5:
+            third = rand_number_list(rng, rng.randint(1, 3))
+            parts = parts + [third]
+        cases.append((0, parts))
 
     # --- non-finite / overflowing inputs: bit-exactness of the float model only (the oracle skips them)
     for _ in range(40 if quick else 400):
@@ -686,7 +884,29 @@ def _ranked(parts, pairs):
         return parts
 
 
+def _shrink_session(case):
+    _, rdds, prog = case
+    for i in range(len(prog)):
+        yield (4, rdds, prog[:i] + prog[i + 1:])
+    simple = [_ranked(parts, False) for parts in rdds]
+    if simple != rdds:
+        yield (4, simple, prog)
+    for r, parts in enumerate(rdds):
+        for i in range(len(parts)):
+            if len(parts) > 1:
+                yield (4, rdds[:r] + [parts[:i] + parts[i + 1:]] + rdds[r + 1:], prog)
+        for i, p in enumerate(parts):
+            for j in range(len(p)):
+                yield (4, rdds[:r] + [parts[:i] + [p[:j] + p[j + 1:]] + parts[i + 1:]] + rdds[r + 1:], prog)
+    for i, (op, arg) in enumerate(prog):
+        if op == 3 and arg != 1:
+            yield (4, rdds, prog[:i] + [(3, 1)] + prog[i + 1:])
+
+
 def shrink_candidates(case):
+    if case[0] == 4:
+        yield from _shrink_session(case)
+        return
     tag, parts = case[0], case[1]
     flat = [v for p in parts for v in p]
     simple = _ranked(parts, tag in (2, 3))
